@@ -436,9 +436,9 @@ Proof.
     destruct (check_master n3) as [[|]|k]; [| |discriminate].
     + destruct (is_master n3); [inversion H; subst; repeat fr_step|].
       destruct (master_state n3) as [[]|];
-        try (destruct (select_master n3) as [r|k] eqn:E4; [|discriminate]; simpl in H; inversion H; subst;
-             apply SM; reflexivity).
-      inversion H; subst; repeat fr_step.
+        first [ destruct (select_master n3) as [r|k] eqn:E4; [|discriminate]; simpl in H; inversion H; subst;
+                apply SM; reflexivity
+              | inversion H; subst; repeat fr_step ].
     + destruct (select_master n3) as [r|k] eqn:E4; [|discriminate]; simpl in H; inversion H; subst.
       apply SM; reflexivity.
   - (* DISTRIBUTION *)
@@ -821,17 +821,15 @@ Proof.
 Qed.
 
 (* ---------- walking a history ---------- *)
-(* what nspec_walk checks at one successful step *)
+(* what nspec_walk checks at one successful step (defined through nspec_walk itself) *)
 Definition step_checks (fl : nspec_flags) (n0 : node) (prev_fsm prev_master : Z) (prev_ist : list (Z * Z * Z * Z * Z))
                        (e : event) (o : nobs) : bool :=
-  (negb (f_c02_graph fl)
-   || (c02_chain prev_fsm (pub_chain o) (f_c02_master fl) (f_c02_exempt_shutdown fl)
-       && (negb (f_c02_follows fl) || c02_follows (n_me n0) prev_fsm o)))
-  && (negb (f_c13 fl) || (c13_isolated_frozen prev_ist (obs_ist o) (obs_outs o) && c13_auth e prev_ist (obs_ist o)))
-  && (negb (f_c07 fl) || (c07_graph (n_me n0) prev_ist (obs_ist o)
-                          && c07_detection (n_me n0) (o_inactivity (n_opts n0)) (o_auto_fence (n_opts n0))
-                                           e prev_ist (obs_ist o)))
-  && (negb (f_c01 fl) || c01_tokens (n_me n0) prev_master (obs_outs o)).
+  nspec_walk fl n0 prev_fsm prev_master prev_ist [e] [NOk o].
+
+Lemma nspec_walk_cons : forall fl n0 pf pm pi e r o ro,
+  nspec_walk fl n0 pf pm pi (e :: r) (NOk o :: ro)
+  = step_checks fl n0 pf pm pi e o && nspec_walk fl n0 (obs_fsm o) (obs_master o) (obs_ist o) r ro.
+Proof. intros. unfold step_checks. simpl. rewrite andb_true_r. reflexivity. Qed.
 
 (* a history all of whose events satisfy Ev in the state where they are received *)
 Fixpoint hist_ok (Ev : node -> event -> Prop) (n : node) (evs : list event) : Prop :=
@@ -849,13 +847,11 @@ Lemma nspec_walk_run : forall fl n0 (Inv : node -> Prop) (Ev : node -> event -> 
     nspec_walk fl n0 (scode (fsm_state n)) (master n) (init_ist n) evs (run n evs) = true.
 Proof.
   intros fl n0 Inv Ev Hok Hcrash evs. induction evs as [|e r IH]; intros n HI Hh; [reflexivity|].
-  simpl in Hh. destruct Hh as [He Hr]. simpl.
+  simpl in Hh. destruct Hh as [He Hr]. simpl run.
   destruct (step n e) as [[n' outs]|k] eqn:E.
   - destruct (Hok _ _ _ _ HI He E) as [HI' Hc].
-    change (step_checks fl n0 (scode (fsm_state n)) (master n) (init_ist n) e (observe n' outs)
-            && nspec_walk fl n0 (scode (fsm_state n')) (master n') (init_ist n') r (run n' r) = true).
-    rewrite Hc. simpl. apply IH; assumption.
-  - eapply Hcrash; eassumption.
+    rewrite nspec_walk_cons, Hc. simpl. apply IH; assumption.
+  - simpl. eapply Hcrash; eassumption.
 Qed.
 
 Definition Evtrue : node -> event -> Prop := fun _ _ => True.
@@ -883,7 +879,7 @@ Proof.
   apply (nspec_walk_run _ n (fun x => n_me x = n_me n) Evtrue); [| |reflexivity|apply hist_ok_true].
   - intros n1 e n' outs Hme _ H. split.
     + apply step_TR0 in H. destruct H as [[K _] _]. congruence.
-    + unfold step_checks. simpl. rewrite <- Hme. apply (master_only_tokens _ _ _ _ H).
+    + unfold step_checks. simpl. rewrite <- Hme, (master_only_tokens _ _ _ _ H). reflexivity.
   - intros. reflexivity.
 Qed.
 
@@ -1444,7 +1440,7 @@ Proof.
     destruct (is_stable n3); [|exact W3].
     destruct (check_master_WF n3 W3) as [b Eb]. rewrite Eb. destruct b; [|exact SM].
     destruct (is_master n3); [exact W3|].
-    destruct (master_state n3) as [[]|]; try exact SM. exact W3.
+    destruct (master_state n3) as [[]|]; first [exact SM | exact W3].
   - (* DISTRIBUTION *)
     apply MS; [|intros k []]. intros n3 o3 d3 W3 _. destruct d3; [exact W3|].
     destruct (is_master n3); exact W3.
